@@ -3,7 +3,7 @@
    itself parses back to the value, every tag through the tokenizer and its own parser). *)
 From hls Require Import Base Float Lex Kinds Types Tags Line Keys Media Master.
 From hls.Generated Require Import Tables.
-From hls.Proofs Require Import C04 Values Lexical TextLines AttrText TagText TagTextMedia TagTextVariant MasterText ParsedWf FloatAll FloatFixed3.
+From hls.Proofs Require Import C04 Values Lexical TextLines AttrText TagText TagTextMedia TagTextVariant MasterText ParsedWf FloatAll FloatFixed3 MediaParsedFloats.
 Open Scope N_scope.
 
 Theorem C04_items_roundtrip : forall p, validate_master p = true ->
@@ -139,6 +139,14 @@ Proof. exact (conj ufloat_rt_3dec (fun s x H => proj1 (proj2 (parsed_float_round
 Check C04_float_hypotheses : (forall V : N, V < 8192000 -> ufloat_rt (dec_to_f b32 (DNum false (Z.of_N V) (-3))) = true)
   /\ (forall s x, parse_float s = Ok x -> float_rt x = true).
 Print Assumptions C04_float_hypotheses.
+
+(* the round trip of a parsed master playlist with the TIME-OFFSET hypothesis discharged (the float of a parse result comes out of
+   the float reader: threaded through the master parser state): what is left is `rates_ok`, i.e. every FRAME-RATE survives the
+   three-decimal writer — true for every rate with at most three decimals below 8192 (C04_float_hypotheses) *)
+Theorem C04_roundtrip_parsed : forall s p, parse_master s = Ok p -> rates_ok p = true -> parse_master (print_master p) = Ok p.
+Proof. exact parsed_master_roundtrip_rates. Qed.
+Check C04_roundtrip_parsed : forall s p, parse_master s = Ok p -> rates_ok p = true -> parse_master (print_master p) = Ok p.
+Print Assumptions C04_roundtrip_parsed.
 
 Example C04_text_example :
   match parse_master (lit "#EXTM3U
